@@ -26,6 +26,9 @@ Inductive case :=
 (** WithTimeout x headers (0 none, 1 WithHeaders, 2 environment) x collector (hanging / always retry-able); see [Spec.timeout_ok]. *)
 | CTimeout (exporter headers : N) (hang : bool) (timeout_ns bound_ns : Z) (returned : bool) (err : N)
            (elapsed_ns : Z) (late attempts : nat) (headers_ok : bool)
+(** [k] transport errors (temporary or not) injected through WithProxy before the transport works; [calls] =
+    transport (proxy function) calls, [requests] = requests that reached the collector. *)
+| CNetErr (exporter : N) (temporary : bool) (k calls requests : nat) (body_ok : bool) (err : N)
 | CBurst (exporter : N) (gzip : bool) (attempts : nat) (decoded : list N) (own : list bool) (err handled : N).
 
 Definition flag (b : bool) (code : N) : list N := if b then [] else [code].
@@ -79,6 +82,12 @@ Definition check_case (c : case) : list N :=
       flag (shutdown_expired_ok sret eret eerr late later) V_SPECFAIL
   | CTimeout exporter headers hang timeout_ns bound_ns returned err elapsed_ns late attempts headers_ok =>
       flag (timeout_ok returned err elapsed_ns bound_ns late attempts headers_ok) V_SPECFAIL
+  | CNetErr exporter temporary k calls requests body_ok err =>
+      let m := retry_run (fun _ => 0) (fun _ => 0) (fun _ => 0) (fun _ _ => false)
+                         {| Model.enabled := true; max_elapsed := 0 |}
+                         (repeat (classify_http_neterr temporary) k ++ [OSuccess false]) in
+      flag (Nat.eqb (Types.attempts m) calls && (class_of_result (res m) =? err)%N) V_MISMATCH ++
+      flag (neterr_ok temporary k calls requests body_ok err) V_SPECFAIL
   | CBurst exporter gzip attempts decoded own err handled =>
       let m := model_run true 0 None [RespHttp 503 None false; RespHttp 200 None false] in
       flag (Nat.eqb (Types.attempts m) attempts && (class_of_result (res m) =? err)%N &&
